@@ -30,7 +30,8 @@ MANIFEST = {
                  "regenerated constants/guards and a differential rig on real nodes",
     "design_ref": "5/C16",
 }
-MODULES = ["PrimaiteModel.Props.C16", "PrimaiteModel.Props.C16Conn"]
+MODULES = ["PrimaiteModel.Props.C16", "PrimaiteModel.Props.C16Conn", "PrimaiteModel.Props.C16Transport",
+           "PrimaiteModel.Props.C16Timeout", "PrimaiteModel.Props.C16Admin"]
 EXE = "drv_c16"
 
 
@@ -77,6 +78,34 @@ def replay(rec: dict) -> bool:
     return _fails(rec["replay"]["case"]) is None
 
 
+SERVICE_BASE = {"stop", "start", "pause", "resume", "restart", "disable", "enable", "scan", "fix", "compromise"}
+EXPECTED_REQUESTS = {
+    "user-manager": {"add_user", "disable_user", "change_password"},
+    "user-session-manager": {"remote_login", "remote_logout"},
+    "terminal": {"node_session_remote_login", "remote_logoff", "send_remote_command", "send_local_command"},
+}
+
+
+def _runtime_inventory(ctx: Ctx):
+    """The requests the three services really register on a built node (beyond the common service verbs) are the operations of the
+    model; `logon` / `logoff` of the node are stubs that answer failure and change nothing; the account-editing methods of the
+    UserManager object are the four the model has operations for."""
+    im = rig.Impl({"n": 2, "su": 1, "sd": 1, "rd": 1, "max": 2, "lto": 2, "rto": 3})
+    c = im.nodes[0]
+    for svc, want in EXPECTED_REQUESTS.items():
+        have = set(c.software_manager.software[svc]._request_manager.request_types) - SERVICE_BASE
+        ctx.oblige(f"inventory:requests of {svc} = operations of the model", "correspondence", have == want,
+                   f"registered beyond the service verbs: {sorted(have)}; modelled: {sorted(want)}")
+    before = rig.render("x", im.snap())
+    stubs = [im._req(0, ["logon"]), im._req(0, ["logoff"])]
+    ctx.oblige("inventory:node logon/logoff are stubs (answer failure, change nothing)", "correspondence",
+               stubs == ["failure", "failure"] and rig.render("x", im.snap()) == before, f"answers {stubs}")
+    editors = sorted(m for m in dir(type(c.user_manager)) if "user" in m and not m.startswith("_")
+                     and callable(getattr(type(c.user_manager), m, None)))
+    ctx.oblige("inventory:public account methods of UserManager", "correspondence",
+               editors == ["add_user", "authenticate_user", "change_user_password", "disable_user", "enable_user"], str(editors))
+
+
 def run(ctx: Ctx):
     with lean_lock():
         ctx.extract(x_session.GEN_NAME, x_session.emit)
@@ -85,6 +114,7 @@ def run(ctx: Ctx):
                        "session state (power, NIC, service states, users, local session, remote sessions, terminal connections, files) "
                        "is compared after every operation; non-trivial = at least one remote session was opened and at least one "
                        "operation was refused; distinct by canonical JSON")
+    _runtime_inventory(ctx)
     cases: List[Tuple[str, dict]] = []
     for f in sorted((VERIF / "corpus" / "C16").glob("*.json")):
         cases.append(("corpus:" + f.name, json.loads(f.read_text())["case"]))
